@@ -150,6 +150,25 @@ def correspondence(ctx):
         if rc.scheme != k:
             ctx.disagree("registry", k, str(rc.scheme), k, True, {"scheme": k, "range_class": rc.__name__,
                          "clause": "registry entry maps to a class that prints another scheme"}, spec=k)
+    # a helper subclass that keeps its parent's scheme (defined here, in this process) takes nothing over: the registry
+    # still maps every scheme to the class it mapped to, and parsing a printed range gives the registered class
+    before = dict(VR.RANGE_CLASS_BY_SCHEMES)
+    subs = []
+    for rc in _range_classes():
+        try:
+            subs.append(type("Advisory" + rc.__name__, (rc,), {"__doc__": "a helper subclass without a scheme of its own"}))
+        except Exception:  # noqa: BLE001
+            pass
+    ctx.count("registry", key="after-subclassing", nontrivial=True)
+    for k, rc in before.items():
+        if VR.RANGE_CLASS_BY_SCHEMES.get(k) is not rc:
+            ctx.disagree("registry", "after subclassing " + k, str(VR.RANGE_CLASS_BY_SCHEMES.get(k)), rc.__name__, True,
+                         {"scheme": k, "clause": "defining a subclass of %s that keeps its scheme changed the registry entry of %r" % (rc.__name__, k)},
+                         spec=rc.__name__)
+            break
+    del subs
+    import gc
+    gc.collect()        # the helper subclasses are gone again (they must not be met as range classes below)
     # round trip of range objects
     _roundtrip_objects(ctx, 1500 if ctx.thorough else (400 if ctx.deepen else 80), "c05-rt", "roundtrip:")
     _other_routes(ctx)
